@@ -31,7 +31,8 @@ type POp struct {
 	// write/readfrom: A=0 size B absolute; A=1 size free+B.
 	// parse: A flags, B=1 nil block.
 	// reset: A mode (0 nil, 1 copy path, 2 alias path, 3 huge capacity,
-	//        4 oversize), B length.
+	//        4 oversize, 5 the parser's own PeekAt slice, 6 the slice in
+	//        direct use refilled by the caller), B length.
 	// probe: A anchor, B length, C kind (0 ReadAt, 1 ByteAt, 2 PeekAt).
 	A int `json:"a,omitempty"`
 	B int `json:"b,omitempty"`
@@ -188,6 +189,15 @@ type PState struct {
 	// paths) is filled with this pattern instead of zeros. The bytes behind
 	// len(data) are not part of the data: results must not depend on them.
 	Poison byte
+	// yield, if set, is called before every operation (histories that are
+	// interleaved with the history of another object).
+	yield func()
+	// adopted is the slice with a margin of 7 bytes that the last such Reset
+	// handed over ("used directly" by the documentation); freed are earlier
+	// ones, replaced by a later slice with margin: they belong to the caller
+	// again, who overwrites them before every operation.
+	adopted []byte
+	freed   [][]byte
 }
 
 // Len returns the number of buffered bytes according to the model.
@@ -519,6 +529,15 @@ func RunHistory(st *PState, pc *PCase, obs PObserver) (class, msg string, at int
 	blk := &lz.Block{}
 	for i := range pc.Ops {
 		op := &pc.Ops[i]
+		if st.yield != nil {
+			st.yield()
+		}
+		for _, f := range st.freed {
+			f = f[:cap(f)]
+			for j := range f {
+				f[j] = 0xC3 ^ byte(j*5+i)
+			}
+		}
 		ev := &PEvent{I: i, Op: op, PreFed: int64(len(st.Fed)), PreOff: st.Off, PreW: st.W}
 		p := st.P
 		switch op.K {
@@ -657,6 +676,38 @@ func RunHistory(st *PState, pc *PCase, obs PObserver) (class, msg string, at int
 				}
 				data = q
 				own = append([]byte(nil), q...) // the content before the call
+			case 6:
+				// the caller refills the slice the parser has been using
+				// directly (same array, new content of the same or another
+				// length) and hands it over again
+				if st.adopted == nil {
+					// nothing in direct use yet: a new slice with margin
+					if l > st.BufferSize {
+						l = st.BufferSize
+					}
+					src := st.take(int64(l))
+					data = make([]byte, len(src), len(src)+7+op.C)
+					copy(data, src)
+					break
+				}
+				a := st.adopted[:cap(st.adopted)]
+				if l > len(a)-7 {
+					l = len(a) - 7
+				}
+				if op.C%3 == 0 {
+					l = len(st.adopted)
+				}
+				if l > st.BufferSize {
+					l = st.BufferSize
+				}
+				src := st.take(int64(l))
+				copy(a, src)
+				if st.Poison != 0 {
+					for j := len(src); j < len(a); j++ {
+						a[j] = st.Poison ^ byte(j*3)
+					}
+				}
+				data = a[:len(src)]
 			case 4:
 				l = st.BufferSize + 1 + op.B%5
 				src := st.take(int64(l))
@@ -821,6 +872,17 @@ func (st *PState) finish(ev *PEvent, obs PObserver) (class, msg string, stop boo
 				}
 				st.Fed, st.Dec, st.Off, st.W, st.Skipped = st.Fed[:0], st.Dec[:0], 0, 0, 0
 				break
+			}
+			if !ev.Wrapped && (op.A == 2 || op.A == 3 || op.A == 6) && len(ev.Given) > 0 && cap(ev.Given) >= len(ev.Given)+7 {
+				// "used directly": the parser's storage is this slice now; an
+				// earlier one belongs to the caller again
+				if st.adopted != nil && &st.adopted[:1][0] != &ev.Given[:1][0] {
+					st.freed = append(st.freed, st.adopted)
+					if len(st.freed) > 4 {
+						st.freed = st.freed[1:]
+					}
+				}
+				st.adopted = ev.Given
 			}
 			st.Fed = append(st.Fed[:0], ev.Given...)
 			if op.A != 5 {
